@@ -191,7 +191,7 @@ def harness(E, cfg):
 
     op, n, cols = cfg["op"], cfg["n"], cfg["cols"]
     if E.symbolic:
-        backend.configure(solve="contract", svd="factor")
+        backend.configure(solve="contract", svd="givens" if op == "procrustes" else "factor", eigh="givens")
     if op == "non_negative":
         v = _in(E, cfg)
         p = P.proximal_operator(v, non_negative=True)
@@ -378,8 +378,38 @@ def harness(E, cfg):
             out = P.svd_thresholding(M, t)
         else:
             out = P.procrustes(M)
+        if op == "procrustes":
+            # feasibility: the result has orthonormal columns (tall/square) or rows (wide) -- for EVERY input, rank-deficient ones included.
+            # concrete (replay) mode evaluates the model input and rank-deficient variants derived from it.
+            def orth(Q):
+                Q = np.asarray(Q, dtype=object if E.symbolic else float)
+                G = np.dot(Q.T, Q) if Q.shape[0] >= Q.shape[1] else np.dot(Q, Q.T)
+                return E.eq_arrays(G, np.eye(G.shape[0], dtype=object if E.symbolic else float))
+
+            if E.symbolic:
+                E.prove("result_is_orthonormal", orth(out), groups=("svd_orth", "eigh_orth", "svd_factor", "eigh_factor"))
+            else:
+                Mf = np.asarray(M, dtype=float)
+                variants = [Mf]
+                v1 = Mf.copy()
+                v1[:, -1] = v1[:, 0]
+                v2 = Mf.copy()
+                v2[-1, :] = 0.0
+                v3 = np.outer(Mf[:, 0], Mf[0, :])
+                variants += [v1, v2, v3, np.zeros_like(Mf)]
+                ok = True
+                for Mv in variants:
+                    try:
+                        ok = ok and bool(orth(P.procrustes(Mv.copy())))
+                    except Exception:
+                        ok = False
+                E.prove("result_is_orthonormal", ok)
         if E.symbolic:
-            (kind, args, (U, S, V)) = [c for c in __import__("vt.sym", fromlist=["x"]).CTX.stub_calls if str(c[0]).startswith("('svd'")][0]
+            svd_calls = [c for c in __import__("vt.sym", fromlist=["x"]).CTX.stub_calls if str(c[0]).startswith("('svd'")]
+            if not svd_calls:
+                E.prove("shape", np.shape(out) == (n, cols))
+                return
+            (kind, args, (U, S, V)) = svd_calls[0]
         else:
             U, S, V = np.linalg.svd(M, full_matrices=False)
         U = np.asarray(U)[:, :r]
